@@ -105,7 +105,11 @@ def gen_run(rng):
     line = "run %d %d %d %d %s %d %s %s %s %s %d %s %d %s" % (
         1 if dyn else 0, mSub, iterMax, pp, aa, ni, hx(minTs), hx(maxTs), hx(minF), hx(maxF), nt,
         " ".join(map(hx, times)), na, " ".join("%d %s %d" % (k, hx(f), a) for k, f, a in atts))
-    return {"line": line, "dyn": dyn, "mSub": mSub, "iterMax": iterMax, "ppolicy": pp, "acceleration": aa,
+    # a study made of several structures (each with its integration points), with 0..2 auxiliary model states each
+    ns, nm = rng.choice([(1, 1), (1, 1), (2, 1), (3, 1), (2, 0), (1, 2), (2, 2)])
+    # `runs`: mprops1 / esv0 / desv / e_th0 / e_th1 are computed by the real functions of CurrentState.cxx
+    line = "runs %d %d %s" % (ns, nm, line[4:])
+    return {"line": line, "structures": ns, "model_states": nm, "dyn": dyn, "mSub": mSub, "iterMax": iterMax, "ppolicy": pp, "acceleration": aa,
             "integration_points": ni, "times": times, "script": atts, "minTs": minTs, "maxTs": maxTs, "minF": minF,
             "maxF": maxF}
 
@@ -120,7 +124,7 @@ def directed_runs():
                 for f in (0.5, 0.75):
                     atts = [(0, 1.0, 1)] * pos + [(0, f, 2)] + list(tail) + [(0, 1.0, 2)] * 40
                     times = [0.0, 1.0, 2.0, 4.0]
-                    line = "run 1 10 6 %d none 1 %s %s %s %s %d %s %d %s" % (
+                    line = "runs 1 1 1 10 6 %d none 1 %s %s %s %s %d %s %d %s" % (
                         pp, hx(-1.0), hx(-1.0), hx(-1.0), hx(-1.0), len(times), " ".join(map(hx, times)), len(atts),
                         " ".join("%d %s %d" % (k, hx(x), a) for k, x, a in atts))
                     out.append({"line": line, "dyn": True, "mSub": 10, "iterMax": 6, "ppolicy": pp, "acceleration": "none",
@@ -158,12 +162,52 @@ def compare_run(ans, stat):
         info.get("ctl", "?/0").split("/")[0], info.get("direct")
 
 
+def untranslated_search(ck, rng):
+    """update / revert left the translated subset: run the failure scripts on the real classes (harness
+    visitors from the headers only) and report the smallest history after which a rejected attempt left a trace"""
+    d = c50gen.read_members(vlib.REPO)
+    ck.write("gen50.hxx", c50gen.cxx_header(d))
+    stat = {n for struct in ("CS", "SCS", "Study") for _, n in c50gen.clean_members(d[struct])
+            if c50gen.classify(struct, n) == "stat"}
+    harness = c48lib.build(ck, "c50h", os.path.join(vlib.VERIF, "harness", "C50", "harness.cxx"),
+                           SOURCES + c48lib.ACCEL_SOURCES, extra_includes=[ck.work])
+    runs = directed_runs() + [gen_run(rng) for _ in range(400)]
+    pr = c48lib.run_harness(ck, harness, "".join(r["line"] + "\n" for r in runs))
+    best = None
+    for r, a in zip(runs, pr.stdout.splitlines()):
+        res = compare_run(a, stat)
+        if not (res[5] or (res[1] and res[2])):
+            continue
+        n = res[3] + res[4]
+        if best is None or n < best["attempts"]:
+            best = {"fields_not_restored": res[5], "attempts": n, "rejected": res[3], "accepted": res[4],
+                    "request": r["line"], "script_prefix": r["script"][:n + 1],
+                    "history": {k: r[k] for k in ("dyn", "mSub", "iterMax", "ppolicy", "acceleration", "integration_points",
+                                                  "structures", "model_states", "times") if k in r},
+                    "final_state_differences_with_the_run_of_the_accepted_steps": [
+                        {"field": a_, "with_rejections": b_, "accepted_steps_only": c_} for a_, b_, c_ in res[2][:8]]}
+    if best:
+        fields = best["fields_not_restored"] or [x["field"] for x in
+                                                 best["final_state_differences_with_the_run_of_the_accepted_steps"]]
+        ck.violation(site_of(fields[0], d) if fields else "mtest/src/GenericSolver.cxx:execute:final-state",
+                     "a rejected attempt leaves a trace (update/revert could not be translated; found by running the "
+                     "failure scripts on the real classes): after %d rejected and %d accepted attempts the fields %s are "
+                     "not what they are in the run of the accepted steps only" % (best["rejected"], best["accepted"], fields[:6]),
+                     best, True)
+
+
 def run(ck):
     rng = random.Random(ck.seed)
     # 1. regenerate the record and the visitors from the current tree
     try:
         d = c50gen.read_sources(vlib.REPO)
     except c50gen.TranslationError as e:
+        # the model of the state cannot be regenerated: the tie is broken (reported below). The property itself
+        # is still run on the implementation, so that a concrete failing history is reported when there is one
+        try:
+            untranslated_search(ck, rng)
+        except (vlib.BuildError, c50gen.TranslationError, OSError, ValueError, KeyError, IndexError):
+            pass
         raise vlib.BuildError("C50 translator: " + e.what, "the update/revert functions or the state headers left "
                               "the translated subset: the model of the state can no longer be regenerated")
     gpath = ck.write_gen("TfelVerif/C50/GenState.lean", c50gen.lean_module(d))
@@ -219,6 +263,8 @@ def run(ck):
         hist["run:" + verdict] = hist.get("run:" + verdict, 0) + 1
         hist_key = {k: r[k] for k in ("dyn", "mSub", "iterMax", "ppolicy", "acceleration", "integration_points", "times",
                                       "minTs", "maxTs", "minF", "maxF")}
+        hist_key["structures"] = r.get("structures", 1)
+        hist_key["model_states"] = r.get("model_states", 1)
         if r.get("directed"):
             hist_key["directed"] = r["directed"]
         for n in res[5]:
@@ -247,7 +293,8 @@ def run(ck):
         rejected_total += res[3]
         accepted_total += res[4]
         with_rejections += res[3] > 0
-        distinct.add((r["dyn"], r["acceleration"], r["ppolicy"], min(res[3], 5), min(res[4], 8), r["integration_points"]))
+        distinct.add((r["dyn"], r["acceleration"], r["ppolicy"], min(res[3], 5), min(res[4], 8), r["integration_points"],
+                      r.get("structures", 1), r.get("model_states", 1)))
         if res[2] and not res[5]:
             old = failing.get("diff")
             if old is None or res[3] + res[4] < old["attempts"]:
